@@ -11,7 +11,7 @@ META = dict(
                "flipped sweep, distributes over subpaths, is an involution on open paths and closed polygons in normal form, "
                "preserves closedness and length, negates the winding number of polygons; SplitAt on polylines: pieces have the "
                "requested lengths and sum to the total; a piece accepted by the sub-curve checker is the stated sub-curve for "
-               "every parameter. Length within 1 % of the true arc length is enclosure-checked per input, not proved.",
+               "every parameter. Length within 1 % of the true arc length is enclosure-checked per input, not proved. Added: for whole paths (any number of contours, each reversed and their order reversed as Reverse does) and every point not level with a vertex the winding number is negated.",
     level_note="Trusted: Coq kernel + vm_compute; hand-written models tied by differential testing; the facts 'inscribed polyline "
                "<= arc length <= control polygon' are classical geometry, not formalised; elliptical arcs: Reverse is modelled; SplitAt/Length on one arc are "
                "judged against the ellipse by orientation predicates and Go's own lengths (checked, not proved).",
